@@ -40,6 +40,11 @@ type Controller interface {
 	// Enqueue is called by a goroutine that must wait for a lock, before it
 	// blocks on the waiter's channel.
 	Enqueue(w *Waiter)
+	// Yield is asked, in controlled mode, when a goroutine is about to take a
+	// FREE lock: true means "park first and let the controller decide when"
+	// (used for goroutines that were not released by the controller, e.g.
+	// woken by a timer, so that their order is a scheduling decision too).
+	Yield() bool
 }
 
 var ctl atomic.Pointer[Controller]
@@ -143,14 +148,15 @@ func (c *core) remove(w *Waiter) {
 }
 
 func (c *core) lock(k lockKind) {
+	ct := controller()
+	yield := ct != nil && ct.Controlled() && ct.Yield()
 	c.g.Lock()
-	if c.free(k) {
+	if c.free(k) && !yield {
 		c.take(k)
 		c.g.Unlock()
 		return
 	}
 	w := &Waiter{c: c, kind: k, ch: make(chan struct{})}
-	ct := controller()
 	if ct != nil && ct.Controlled() {
 		w.controlled = true
 	}
